@@ -7,8 +7,9 @@ single structural differences.
     value of both netlists, for (netlist, copy), (netlist, mutated copy), (mutated copy, netlist)
   + oracle, independent of the model: on named netlists an equal copy (rebuild / clone / EDIF
     write-then-read) is accepted, a copy whose siblings are listed in another order is accepted,
-    and every mutation of a class the property lists - alone, after a reordering, or two at
-    once - raises
+    (pins of wires included), and every mutation of a class the property lists - alone, after a
+    reordering, or two at once - raises
+  + Comparer.get_pin_key vs the model's pin_key on every pin of every wire of every netlist
   + kernel cross-check of the extracted code on a sample (thorough tier)
   + evidence."""
 import collections, json, os, random, subprocess, sys, time, shutil, tempfile
@@ -36,6 +37,19 @@ def run_model(lines):
         f = l.split(' ')
         res.append({'outcome': f[0], 'wf': 'wf=1' in f, 'noasg': 'noasg=1' in f, 'raw': l})
     return res
+
+
+def run_model_keys(lines):
+    """request K: the model's pin_key of every pin on a wire -> list of token lists"""
+    if not lines:
+        return []
+    r = subprocess.run([DRIVER], input='\n'.join(lines) + '\n', capture_output=True, text=True)
+    if r.returncode != 0:
+        raise RuntimeError('model driver failed: ' + r.stderr[-2000:])
+    out = [l for l in r.stdout.split('\n') if l != '']
+    if len(out) != len(lines):
+        raise RuntimeError('model driver answered %d of %d key requests' % (len(out), len(lines)))
+    return [l.split(' ')[1:] if l.startswith('keys') else ['driver:' + l] for l in out]
 
 
 # ------------------------------------------------------------------ findings
@@ -90,6 +104,7 @@ def eval_case(case):
     # faithful = equal in everything but the lower index of ports (never read by the comparer,
     # not kept by EDIF)
     faithful = cmp_canon.canon(a, lower=False) == cmp_canon.canon(b, lower=False)
+    keys = [('K ' + ' '.join(ca), cmp_canon.real_keys(a)), ('K ' + ' '.join(cb), cmp_canon.real_keys(b))]
     if case.get('pairs', 'all') in ('all', 'equal'):
         real, msg = cmp_canon.run_real(a, b)
         pairs.append({'tag': 'equal', 'cls': 'equal:' + case['copy'], 'line': ' '.join(ca + cb), 'real': real,
@@ -97,6 +112,7 @@ def eval_case(case):
     if case.get('mutate'):
         cmp_gen.apply_mops(b, case['mutate'])
         cb2 = cmp_canon.canon(b)
+        keys.append(('K ' + ' '.join(cb2), cmp_canon.real_keys(b)))
         cls = case['cls']
         rev = cmp_gen.rev_class(cls)
         if case.get('pairs', 'all') in ('all', 'ab'):
@@ -107,11 +123,12 @@ def eval_case(case):
             real, msg = cmp_canon.run_real(b, a)
             pairs.append({'tag': 'ba', 'cls': rev, 'line': ' '.join(cb2 + ca), 'real': real, 'msg': msg,
                           'canon_equal': ca == cb2, 'copy_faithful': faithful, 'rel': cmp_canon.relation(b, a)})
+    if pairs:
+        pairs[0]['keys'] = keys
     return pairs
 
 
-EQUIV = ('perm',)                 # same structure, siblings listed in another order
-SETEQ = ('pin_order',)            # same connectivity, pins of a wire listed in another order
+EQUIV = ('perm', 'pin_order')     # same structure: siblings / the pins of wires listed in another order
 NEUTRAL = ('lower_index', 'top_drop', 'top_add', 'oid', 'oid_rev', 'rename')   # not listed by the property
 BLIND = ('prop_added_entry', 'prop_added_key', 'prop_new')
 
@@ -135,16 +152,15 @@ def oracle(case, pair):
     label = '&'.join(parts)
     # (1) by the structural relation of the two netlists, computed from the real objects by
     #     cmp_canon.relation (mirror of Cmp/Equiv.v; independent of the comparer and of the labels)
-    if rel == 'equiv_ord' and real != 'accept':
-        return ['%s-equivalent|%s' % ('rejects' if real == 'reject' else 'raises-' + real, label)]
-    if rel == 'equiv_set' and real != 'accept':
-        return ['%s-equivalent|pin_order' % ('rejects' if real == 'reject' else 'raises-' + real)]
+    if rel in ('equiv_ord', 'equiv_set') and real != 'accept':
+        return ['%s-equivalent|%s' % ('rejects' if real == 'reject' else 'raises-' + real,
+                                      label if rel == 'equiv_ord' else 'pin_order')]
     if rel == 'different' and real == 'accept' and not any(c in NEUTRAL or c.endswith('~rev') for c in parts):
-        return ['accepts|%s' % '&'.join(c for c in parts if c not in EQUIV and c not in SETEQ)]
+        return ['accepts|%s' % '&'.join(c for c in parts if c not in EQUIV)]
     # (2) by the classes of the edits
     if any(c in NEUTRAL or c.endswith('~rev') for c in parts):
         return None
-    diffs = [c for c in parts if c not in EQUIV and c not in SETEQ]
+    diffs = [c for c in parts if c not in EQUIV]
     if any(c not in cmp_gen.PROPERTY_CLASSES for c in diffs):
         return None
     if len(parts) > 1 and rel is not None:
@@ -157,7 +173,7 @@ def oracle(case, pair):
     elif not diffs or pair.get('canon_equal'):
         if real == 'accept':
             return None
-        which = 'pin_order' if any(c in SETEQ for c in parts) else (parts[0] if not diffs else 'undone')
+        which = parts[0] if not diffs else 'undone'
         return ['%s-equivalent|%s' % ('rejects' if real == 'reject' else 'raises-' + real, which)]
     if len(parts) > 1 and any(m[0] == 'create' and m[3] is None for m in (case.get('mutate') or [])):
         return None                # an unnamed element was created: outside the named netlists
@@ -479,8 +495,8 @@ def run(prop, tier, seed, replay):
         if mode == 'named' and idx % 18 == 4:
             # structurally equal pairs (siblings / pins listed in another order), alone or followed by one difference
             k = idx // 18
-            cls = ['perm', 'perm&' + r.choice(G.PROPERTY_CLASSES), 'pin_order', 'perm&' + r.choice(G.PROPERTY_CLASSES),
-                   'perm', 'lower_index'][k % 6]
+            cls = ['perm', 'perm&' + r.choice(G.PROPERTY_CLASSES), 'pin_order', 'pin_order&' + r.choice(G.PROPERTY_CLASSES),
+                   'perm', 'lower_index', 'pin_order', 'perm&' + r.choice(G.PROPERTY_CLASSES)][k % 8]
         if mode == 'named' and idx % 18 == 13:
             # two differences at once
             cls = r.choice(G.PROPERTY_CLASSES) + '&' + r.choice(G.PROPERTY_CLASSES)
@@ -575,6 +591,42 @@ def run(prop, tier, seed, replay):
         elif len(kernel_samples) < (0 if tier == 'quick' else 40) and p['tag'] != 'equal' and len(p['line']) < 6000:
             kernel_samples.append((p['line'], m['outcome']))
 
+    # 3b. Comparer.get_pin_key against the model's pin_key, on every pin of every wire of every netlist
+    key_reqs = {}
+    for case, p in all_pairs:
+        for line, real in p.get('keys', []):
+            key_reqs.setdefault(line, (real, case))
+    klines = list(key_reqs)
+    kmodels = run_model_keys(klines)
+    n_keys = 0
+    n_key_disagree = 0
+    for line, mk in zip(klines, kmodels):
+        real, case = key_reqs[line]
+        n_keys += len(real)
+        if mk != real:
+            n_key_disagree += 1
+            n_disagree += 1
+            if reported[0] < 6:
+                reported[0] += 1
+                where = [i for i, (x, y) in enumerate(zip(mk, real)) if x != y][:3]
+                short = strip(case)
+                found = search_property_failure(short, seed)
+                known = found and match_finding(findings, found[2])
+                if found and not known:
+                    rep.violation('corr-%s' % common.sha(json.dumps(found[0])),
+                                  {'kind': 'property-violation-on-implementation', 'engine': 'cmp', 'signature': found[2],
+                                   'pair': found[1]['tag'], 'real': found[1]['real'], 'case': found[0],
+                                   'correspondence': {'case': short, 'what': 'get_pin_key', 'positions': where,
+                                                      'real': [real[i] for i in where] or real[:3],
+                                                      'model': [mk[i] for i in where] or mk[:3]}})
+                else:
+                    rep.violation('corr-keys-%s' % common.sha(line),
+                                  {'kind': 'correspondence-broken', 'engine': 'cmp',
+                                   'what': 'model pin_key (coq/theories/Cmp/Comparer.v) and Comparer.get_pin_key '
+                                           '(spydrnet/compare/compare_netlists.py) disagree',
+                                   'positions': where, 'real': [real[i] for i in where] or real[:3],
+                                   'model': [mk[i] for i in where] or mk[:3], 'case': short}, found_input=False)
+
     # 4. open findings must still reproduce on their corpus witness (otherwise they are fixed:
     #    the correspondence above has then already reported that the model no longer follows)
     for f in findings:
@@ -614,6 +666,7 @@ def run(prop, tier, seed, replay):
         'copy_route_histogram': dict(copies),
         'pairs_in_theorem_domain (wf_named & no_asg on the model side)': domain_named,
         'model_impl_disagreements': n_disagree, 'oracle_failures': n_oracle, 'model_ill': n_ill,
+        'pin_keys_compared (Comparer.get_pin_key vs model pin_key)': n_keys, 'netlists_with_key_disagreement': n_key_disagree,
         'known_finding_hits': dict(known_hits), 'other': dict(stats),
         'kernel_cross_check': {'ok': kernel_ok, 'cases': len(kernel_samples), 'witnesses': len(witnesses)},
         'corpus_cases': len(corpus),
@@ -640,8 +693,9 @@ def trusted_base(proof):
         'directions, is_array, pin/wire counts, pins of every wire as (instance name, port name, index), references, EDIF.properties), '
         'harness/cmp_gen.py (netlists, copies, mutations through the public API), harness/netgen.py, harness/ir_world.py',
         'harness/cmp_canon.py relation(): Python mirror of the declarative relations of coq/theories/Cmp/Equiv.v (siblings matched by name in any '
-        'order, pins per wire ordered / as a set, properties under ==), computed from the real objects; the oracle expects accept exactly on '
-        'equivalent pairs (pairs that differ only in the pin order of a wire or in extra properties of the second netlist are the open findings)',
+        'order, pins per wire as a set, properties under ==), computed from the real objects; the oracle expects accept exactly on '
+        'equivalent pairs - whatever the order of siblings and of the pins of a wire (pairs that differ only in extra properties of the second '
+        'netlist are the open finding)',
         'the model coq/theories/Cmp/Comparer.v is hand-written: tied to /repo only by the correspondence run reported here',
         'sibling names are unique and name lookups answer from the namespace tables = scan of the named children (property C10, engine ir)',
         'CPython 3.12 semantics of ==, str.split, str.startswith, fnmatch.fnmatchcase',
@@ -667,6 +721,11 @@ def replay_file(prop, path):
     pairs = eval_case(case)
     models = run_model([p['line'] for p in pairs])
     bad = False
+    for p in pairs:
+        for (line, real), mk in zip(p.get('keys', []), run_model_keys([l for l, _ in p.get('keys', [])])):
+            if mk != real:
+                print(json.dumps({'get_pin_key': 'disagreement', 'real': real[:8], 'model': mk[:8]}))
+                bad = True
     for p, m in zip(pairs, models):
         sig = oracle(case, p)
         known = sig and match_finding(findings, sig)
